@@ -3,6 +3,8 @@ package main
 import (
 	"context"
 	"errors"
+	"io"
+	"net"
 	"net/http"
 	"net/http/httptest"
 	"strings"
@@ -230,12 +232,72 @@ func (p *recProvider) Shutdown(context.Context) error       { return nil }
 
 func execSession(in val.V) val.V {
 	return guard(func() val.V {
-		if in.At(0).Num() == 0 {
+		switch in.At(0).Num() {
+		case 0:
 			return execSessionCalls(in)
+		case 1:
+			return execServe(in)
+		default:
+			return execRealServer(in)
 		}
-		return execServe(in)
 	})
 }
+
+// Kind 2: the same Server behind a real net/http server on the loopback interface, read by a
+// real http.Client: what a client receives (status, Content-Type, the whole body) when nothing
+// fails.  net/http is not modelled; this only shows that the recording writer above stands for
+// a real one (which offers both Flush and FlushError).
+//   input  : (n2 (msg ...) (call ...))     at least one call
+//   output : (n<status> x<Content-Type> x<body> (n<returned> ...))
+func execRealServer(in val.V) val.V {
+	prov := &realProvider{pool: poolOf(in.At(1)), calls: in.At(2).Items()}
+	ts := httptest.NewServer(&sse.Server{Provider: prov})
+	defer ts.Close()
+	client := &http.Client{Timeout: 20 * time.Second}
+	res, err := client.Get(ts.URL)
+	if err != nil {
+		return val.S("request failed")
+	}
+	defer res.Body.Close()
+	body, err := io.ReadAll(res.Body)
+	if err != nil {
+		return val.S("body read failed")
+	}
+	rets := make([]val.V, len(prov.rets))
+	for i, e := range prov.rets {
+		rets[i] = val.N(e)
+	}
+	return val.L(val.Int(res.StatusCode), val.S(strings.Join(res.Header["Content-Type"], ",")), val.B(body), val.List(rets))
+}
+
+type realProvider struct {
+	pool  []*sse.Message
+	calls []val.V
+	rets  []uint64
+}
+
+func (p *realProvider) Subscribe(_ context.Context, sub sse.Subscription) error {
+	for _, c := range p.calls {
+		var err error
+		if c.At(0).Num() == 0 {
+			m := &sse.Message{}
+			if i := c.At(1).Int(); i < len(p.pool) {
+				m = p.pool[i]
+			}
+			err = sub.Client.Send(m)
+		} else {
+			err = sub.Client.Flush()
+		}
+		if err != nil {
+			p.rets = append(p.rets, 99)
+		} else {
+			p.rets = append(p.rets, 0)
+		}
+	}
+	return nil
+}
+func (p *realProvider) Publish(*sse.Message, []string) error { return errors.New("unused") }
+func (p *realProvider) Shutdown(context.Context) error       { return nil }
 
 func poolOf(v val.V) []*sse.Message {
 	pool := make([]*sse.Message, v.Len())
@@ -567,5 +629,34 @@ func genSession(c *Ctx) {
 		}
 		c.Count("serve:random")
 		c.Emit(val.L(val.N(1), rng.Pick(c.R, shapes), h, rng.Pick(c.R, ons), pool, val.List(calls), perr, val.List(script)))
+	}
+
+	// a real net/http server on the loopback interface, when this machine has one
+	if l, err := net.Listen("tcp", "127.0.0.1:0"); err != nil {
+		c.Count("real-server:unavailable")
+	} else {
+		l.Close()
+		k := 150
+		if c.Thorough {
+			k = 2000
+		}
+		for i := 0; i < k; i++ {
+			np := 1 + c.R.Intn(3)
+			msgs := make([]val.V, np)
+			for j := range msgs {
+				msgs[j] = genRandMsg(c.R)
+			}
+			nc := 1 + c.R.Intn(6)
+			calls := make([]val.V, nc)
+			for j := range calls {
+				if c.R.Intn(3) == 0 {
+					calls[j] = flushV()
+				} else {
+					calls[j] = sendV(c.R.Intn(np))
+				}
+			}
+			c.Count("real-server")
+			c.Emit(val.L(val.N(2), val.List(msgs), val.List(calls)))
+		}
 	}
 }
